@@ -98,6 +98,26 @@ var perturbations = []perturbation{
 			return []string{l}
 		})
 	}},
+	{"comment-indent-jitter", func(s []byte, r *rand.Rand) []byte {
+		// own-line // comments lose or gain a tab (hand-edited code; the hanging-indent rules of the
+		// decorator look at comment columns)
+		if bytes.Contains(s, []byte("`")) || bytes.Contains(s, []byte("/*")) {
+			return s
+		}
+		lines := strings.Split(string(s), "\n")
+		for i, l := range lines {
+			t := strings.TrimLeft(l, "\t")
+			if strings.HasPrefix(t, "//") && !strings.HasPrefix(t, "//go:") && !strings.HasPrefix(t, "//line") && i > 0 && len(l) > len(t) {
+				switch r.Intn(4) {
+				case 0:
+					lines[i] = "\t" + l
+				case 1:
+					lines[i] = l[1:]
+				}
+			}
+		}
+		return []byte(strings.Join(lines, "\n"))
+	}},
 	{"blanks-with-spaces", func(s []byte, r *rand.Rand) []byte {
 		// empty lines between two code lines hold blanks or a tab (editors leave such lines behind)
 		starts := tokenStartLines(s)
@@ -599,6 +619,45 @@ func checkC03(c *Ctx) {
 			})
 			c.Set("systematic_comment_inputs", len(gjs))
 		}
+	}
+	// comments at every indentation below a clause body or a statement that ends on a continuation line
+	// (the decorator's hanging-indent rules look at comment columns; arbitrary formatting puts them anywhere)
+	{
+		var seqs [][]int
+		for a := 0; a <= 4; a++ {
+			for b := 0; b <= 4; b++ {
+				seqs = append(seqs, []int{a, b})
+				for d := 0; d <= 4; d++ {
+					seqs = append(seqs, []int{a, b, d})
+				}
+			}
+		}
+		frames := [][2]string{
+			{"package p\n\nfunc f() {\n\tswitch x {\n\tcase 1:\n\t\tfoo()\n", "\tcase 2:\n\t\tbar()\n\t}\n}\n"},
+			{"package p\n\nfunc f() {\n\tselect {\n\tcase <-c:\n\t\tfoo()\n", "\tcase d <- 1:\n\t}\n}\n"},
+			{"package p\n\nfunc f() {\n\tswitch x {\n\tcase 1:\n", "\tdefault:\n\t}\n}\n"},
+			{"package p\n\nfunc f() {\n\tfoo(a,\n\t\tb)\n", "\tbar()\n}\n"},
+			{"package p\n\nfunc f() {\n\tif x {\n\t\tfoo()\n", "\t}\n\tbar()\n}\n"},
+		}
+		n := 0
+		for fi, fr := range frames {
+			for _, seq := range seqs {
+				var b strings.Builder
+				b.WriteString(fr[0])
+				for k, ind := range seq {
+					b.WriteString(strings.Repeat("\t", ind) + fmt.Sprintf("// h%d\n", k+1))
+				}
+				b.WriteString(fr[1])
+				key := fmt.Sprintf("hanging-comments|frame-%d|indents %v", fi, seq)
+				sig, what := c03Judge([]byte(b.String()))
+				c.Eval(key, true)
+				n++
+				if sig != "" {
+					c.Fail(Finding{Sig: sig, Input: key, What: key + ": " + what, Replay: obj{"kind": "c03src", "src": b.String()}})
+				}
+			}
+		}
+		c.Set("hanging_comment_layouts", n)
 	}
 	// model-level conservation on the real fragment lists of perturbed snippets (Link.tla, property layer)
 	var items []traceItem
